@@ -7,12 +7,18 @@
 -/
 import Orbiter.Lemmas.Ctx
 import Orbiter.Admin
+import Orbiter.Expect
 namespace Orbiter.C05
 open Orbiter
 
 /-- Coverage obligation: the routes registered by the built application are the ones the model wires. -/
 theorem pin_routes : Gen.forwardingRoutes = [PROTOCOL_CCTP, PROTOCOL_HYPERLANE, PROTOCOL_INTERNAL] ∧
     Gen.actionRoutes = [ACTION_FEE] ∧ Gen.adapterRoutes = [PROTOCOL_IBC] := by decide
+
+/-- Coverage obligation: everything the module can ask of the bank, CCTP, the warp module and the bank's message server is a method
+of these interfaces, and each has a contract in `Recv.lean` (table at `modelExternalSurface`): a call through a helper the model
+has no contract for shows here before it shows anywhere else. -/
+theorem pin_external_surface : Gen.externalSurface = modelExternalSurface := by decide +kernel
 
 /-- The request the payload asks for: parameters verbatim, post-action coin, orbiter as sender. -/
 def expectedReq (t : TransferAttrs) (f : Forwarding) : Option Req :=
